@@ -143,18 +143,22 @@ def run(ctx):
         if quick and len(receivers) > 4:
             receivers = [root] + rnd.sample(receivers[1:], 3)
         for inst in receivers:
-            proj = dc.project_inst(inst, schema)
+            proj = dc.project_inst(inst, schema, extra=True)
             table = {}
             index_paths(inst, [], table)
             below = sorted(names_below(proj, schema, set()))
             names = below if not quick else rnd.sample(below, min(len(below), 8))
             others = [n for n in allnames if n not in below]
             names += rnd.sample(others, min(len(others), 3 if quick else 10)) + UNDEFINED
+            # shortcut names too: a shortcut of a descendant is reachable by flat access like any other name
+            names += SHORTCUTS if not quick else rnd.sample(SHORTCUTS, 5)
             for name in names:
                 klass = type(inst)
                 cattr = getattr(klass, name, None) if not name.startswith("__") else None
                 shadowed = name in dir(list) or isinstance(cattr, property) or callable(cattr)
-                out = outcome(lambda: getattr(inst, name), table)
+                def curtype():
+                    return getattr(inst, "curtype")
+                out = outcome(curtype if name == "curtype" else (lambda: getattr(inst, name)), table)
                 try:
                     has = "true" if hasattr(inst, name) else "false"
                 except Exception:
@@ -167,23 +171,31 @@ def run(ctx):
                 evs.append({"id": "a%d" % len(evs), "op": "getattr", "inst": proj, "name": name, "shadowed": bool(shadowed),
                             "out": out, "hasattr": has, "default": dflt})
                 ctx.nontrivial.add((proj["cls"], name, out["k"]))
+                if name == "statements":
+                    proj = dc.project_inst(inst, schema, extra=True)     # reading statements staples wrapper ids onto them
             for name in SHORTCUTS:
                 if isinstance(getattr(type(inst), name, None), property):
                     def curtype():
                         return getattr(inst, name)
                     fn = curtype if name == "curtype" else (lambda: getattr(inst, name))
                     out = outcome(fn, table)
-                    evs.append({"id": "s%d" % len(evs), "op": "shortcut", "inst": proj, "name": name, "out": out})
+                    after = dc.project_inst(inst, schema, extra=True)
+                    evs.append({"id": "s%d" % len(evs), "op": "shortcut", "inst": proj, "name": name, "out": out, "after": after})
+                    proj = after
                     ctx.nontrivial.add((proj["cls"], "shortcut " + name, out["k"]))
             if not quick or rnd.random() < 0.4:
                 for how, fn in (("copy", copy.copy), ("deepcopy", copy.deepcopy), ("pickle", lambda x: pickle.loads(pickle.dumps(x)))):
                     try:
                         c = fn(inst)
-                        o = {"ok": True, "inst": dc.project_inst(c, schema), "exc": ""}
+                        o = {"ok": True, "inst": dc.project_inst(c, schema, extra=True), "exc": ""}
                     except Exception as e:
-                        o = {"ok": False, "inst": {"cls": "", "els": [], "mem": []}, "exc": type(e).__name__}
+                        o = {"ok": False, "inst": {"cls": "", "els": [], "mem": [], "extra": []}, "exc": type(e).__name__}
                     evs.append({"id": "c%d" % len(evs), "op": "clone", "how": how, "inst": proj, "out": o})
     ctx.evaluations = len(evs)
+    import json as _j
+    ctx.extra["getattr_events_on_stapled_receivers"] = sum(1 for e in evs if e["op"] == "getattr" and '"extra": [["' in _j.dumps(e["inst"]))
+    ctx.extra["statements_shortcut_events_that_stapled"] = sum(1 for e in evs if e["op"] == "shortcut" and e["name"] == "statements"
+                                                               and '"extra": [["' in _j.dumps(e["after"]))
     for e in evs[:2] + [x for x in evs if x["op"] == "shortcut"][:2]:
         ctx.sample({"op": e["op"], "class": e["inst"]["cls"], "name": e.get("name", e.get("how")), "out": str(e["out"])[:200]})
     mism = ctx.validate_trace("Trace_Access", evs)
